@@ -298,7 +298,7 @@ C_LINE = re.compile(r"^ {0,4}[cC]( |$)")
 # line.endswith(" &\n") evaluated on every line): trigger predicates of the known findings decide from these
 UNTIDY = ("amp_trailing_blank", "amp_last_column", "amp_then_comment", "comment_ends_amp", "dollar_ends_amp")
 SAFE = ("amp_low_indent", "trailing_blanks", "indented_comment", "crlf", "message_added", "message_removed",
-        "comment_trailing_blanks", "tail_text", "tabify", "card_indent", "comment_case")
+        "comment_trailing_blanks", "tail_text", "tabify", "card_indent", "comment_case", "amp_at_limit")
 FEATURES = SAFE + UNTIDY
 
 
@@ -377,15 +377,21 @@ def relayout(rng, text, allow=FEATURES, width=128):
                     if com_since:
                         feats.add("amp_then_comment")
         if starts_card and "card_indent" in allow and r[3] < 0.15 and "\t" not in l[:6] \
-                and "#" not in (" " * k4 + l)[:5] and xlen(l) + k4 < width:
+                and "#" not in (" " * k4 + l)[:5] and xlen(" " * k4 + l) < width:
             l = " " * k4 + l
             feats.add("card_indent")
-        if (not is_c) and (not is_blank) and "tabify" in allow and r[4] < 0.25:
+        if (not is_c) and (not is_blank) and "tabify" in allow and r[4] < 0.25 \
+                and not re.match(r"\s*[fs]c\d", l, re.I):      # FCn / SCn are free text: blank runs are content
             l2 = _tabify(l, width, r[5:9])
             if l2 != l:
                 l = l2
                 feats.add("tabify")
         amp = (not is_c) and "$" not in l and l.rstrip(" ").endswith(" &")
+        if amp and "amp_at_limit" in allow and r[13] < 0.2 and ("amp_last_column" in allow or "amp_low_indent" not in allow):
+            body = l.rstrip(" ")[:-1].rstrip(" ")
+            if body.strip() and xlen(body) + 2 <= width:
+                l = body + " " * (width - xlen(body) - 1) + "&"          # the '&' in the last allowed column
+                feats.add("amp_at_limit")
         hidden = amp and xlen(l.rstrip(" ")) >= width
         if (not is_blank) and not is_c and "trailing_blanks" in allow and r[9] < 0.15:
             n = [1, 2, 5][int(r[12] * 3)]
@@ -400,7 +406,7 @@ def relayout(rng, text, allow=FEATURES, width=128):
             ci = m.end() - (2 if l[m.end() - 1:m.end()] == " " else 1)
             l = l[:ci] + l[ci].swapcase() + l[ci + 1:]
             feats.add("comment_case")
-        if is_c and "indented_comment" in allow and r[6] < 0.3 and not l.startswith(" ") and xlen(l) + 4 < width:
+        if is_c and "indented_comment" in allow and r[6] < 0.3 and not l.startswith(" ") and xlen(" " * k4 + l) < width:
             l = " " * k4 + l
             feats.add("indented_comment")
         if is_c and "comment_ends_amp" in allow and r[7] < 0.1 and l.strip().lower() != "c" \
